@@ -17,6 +17,7 @@ import time
 from . import build
 
 VERIF = build.VERIF
+MAX_REPORTED = 5
 ALLOWED_AXIOMS = {"propext", "Classical.choice", "Quot.sound"}
 FORBIDDEN = re.compile(r"\b(sorry|admit|native_decide|bv_decide|implemented_by|unsafe)\b|^\s*axiom\s|maxHeartbeats\s+0\b")
 
@@ -131,6 +132,7 @@ class Result:
         self.violations = []      # (replay_path, suffix)
         self.known = []           # messages
         self.notes = []
+        self.suppressed = 0
 
 
 def run_check(prop, tier, seed, replay=None):
@@ -140,6 +142,12 @@ def run_check(prop, tier, seed, replay=None):
     res = Result()
     replay_dir = os.path.join(VERIF, "replays")
     os.makedirs(replay_dir, exist_ok=True)
+    for old in os.listdir(replay_dir):
+        if old.startswith(pid + "-"):
+            try:
+                os.remove(os.path.join(replay_dir, old))
+            except OSError:
+                pass
     known = [k for k in load_known() if k.get("property") == pid]
     known_active = {k["signature"]: k for k in known if k.get("status", "known") == "known"}
 
@@ -274,6 +282,9 @@ def run_check(prop, tier, seed, replay=None):
         if sig in seen_sigs:
             continue
         seen_sigs.add(sig)
+        if len(res.violations) >= MAX_REPORTED:
+            res.suppressed += 1
+            continue
         path = os.path.join(replay_dir, "%s-%s.json" % (pid, hashlib.sha256(oline.encode()).hexdigest()[:10]))
         write_json(path, {"property": pid, "kind": "oracle", "signature": sig, "lines": [cases[i].line],
                           "oracle_line": oline, "verdict": v, "real": real[i],
